@@ -223,7 +223,7 @@ def n(tier, q, t):
 
 def C01(rep):
     chan_mc(rep, rep.tier, kinds=("q", "rv", "os", "bc"))
-    chan_seq(rep, ALL_PLUS, n(rep.tier, 24, 400), 60, [1, 2, 3, 5], ["mix", "batch", "async"], label="chan-seq")
+    chan_seq(rep, ALL_PLUS, n(rep.tier, 18, 400), 60, [1, 2, 3, 5], ["mix", "batch", "async"], label="chan-seq")
     chan_sched(rep, ALL_PLUS, n(rep.tier, 40, 1500), [1, 2], seed_off=11)
     # batch senders racing for runs of slots at the edge of the window (overshoot / tombstone paths)
     chan_sched(rep, BATCH_MP, n(rep.tier, 60, 1500), [1, 2, 3], shapes=("batchrace",), strategies=("pct", "random", "pct5"),
